@@ -1,7 +1,9 @@
 (* C07 -- results do not depend on labels, storage order or cell orientation.  Statements only.
-   PARTIAL: id renaming is proved; invariance under cyclic shifts / orientation flips is evaluated by the oracle. *)
+   Proved: id renaming; the interface decomposition is invariant (as a set of interfaces up to traversal direction) under starting any
+   cell's cycle at another vertex and under storing any subset of cells in the opposite rotational sense.
+   PARTIAL: invariance of the solved tensions / pressures under these changes is evaluated by the oracle. *)
 From Coq Require Import ZArith List Bool.
-From Forsys Require Import Model.PyList Model.Interfaces Model.PressureSys Proofs.InterfacesProofs Proofs.PressureProofs.
+From Forsys Require Import Model.PyList Model.Interfaces Model.PressureSys Proofs.InterfacesProofs Proofs.PressureProofs Proofs.ShiftProofs.
 Import ListNotations.
 Open Scope Z_scope.
 
@@ -24,6 +26,29 @@ Proof. exact row_orientation. Qed.
 Theorem C07_no_repeat : forall l, NoDupRev (dedup_ifaces l).
 Proof. exact dedup_no_repeat. Qed.
 
+(* starting a cell's vertex list at a different vertex: the cell's interface list is rotated, nothing else *)
+Theorem C07_cell_shift : forall junc (a b : list Z), exists m,
+  cell_interfaces junc (b ++ a) = rotn m (cell_interfaces junc (a ++ b)).
+Proof. exact cell_interfaces_shift. Qed.
+(* storing a cell in the opposite rotational sense: the same interfaces, each traversed backwards, in rotated reverse order *)
+Theorem C07_cell_flip : forall junc (ids : list Z), exists m,
+  cell_interfaces junc (rev ids) = rotn m (map (@rev Z) (rev (cell_interfaces junc ids))).
+Proof. exact cell_interfaces_reverse. Qed.
+(* whole tissue: any per-cell combination of shifts and flips leaves the set of interfaces unchanged up to direction (both inclusions) *)
+Theorem C07_tissue_shift_flip : forall junc cells cells',
+  Forall2 (fun c c' => same_cycle (snd c) (snd c')) cells cells' ->
+  (forall e, In e (create_edges_new junc cells) -> exists f, In f (create_edges_new junc cells') /\ same_iface e f) /\
+  (forall f, In f (create_edges_new junc cells') -> exists e, In e (create_edges_new junc cells) /\ same_iface f e).
+Proof.
+  intros junc cells cells' H. split.
+  - now apply create_edges_new_same_cycles.
+  - apply create_edges_new_same_cycles. clear -H. induction H; constructor; [now apply same_cycle_sym|assumption].
+Qed.
+Example C07_shift_flip_example :
+  create_edges_new (fun v => memZ v [1; 4]) [(0, [3; 2; 1; 0; 5; 4])] = [[1; 0; 5; 4]; [4; 3; 2; 1]] /\
+  create_edges_new (fun v => memZ v [1; 4]) [(0, [0; 1; 2; 3; 4; 5])] = [[1; 2; 3; 4]; [4; 5; 0; 1]].
+Proof. vm_compute. split; reflexivity. Qed.
+
 Example C07_example :
   create_edges_new (fun v => memZ v [11; 14]) [(5, [10; 11; 12; 13; 14; 15])]
   = map (map (fun x => x + 10)) (create_edges_new (fun v => memZ v [1; 4]) [(0, [0; 1; 2; 3; 4; 5])]).
@@ -33,3 +58,6 @@ Print Assumptions C07_interfaces_rename.
 Print Assumptions C07_cell_interfaces_rename.
 Print Assumptions C07_pressure_row_orientation.
 Print Assumptions C07_no_repeat.
+Print Assumptions C07_cell_shift.
+Print Assumptions C07_cell_flip.
+Print Assumptions C07_tissue_shift_flip.
